@@ -307,6 +307,7 @@ def file_method(I, f, name):
         newlen = z3.If(pos + dl > ln, pos + dl, ln)
         st.length = norm_int(z3.If(dl > 0, newlen, ln) if concrete_int(dl) is None else newlen)
         f.pos = norm_int(pos + dl)
+        I.ghost["last_write_at"] = pos
         crash_point(I, "write", f.key)
         return b.length
 
